@@ -139,6 +139,11 @@ def make(n, jobs_hi, budget, kinds=("run_command",), unrelated=False, orders="re
             D = graphs.describe(specs) + ["jobs=%d" % jobs]
             k = res.kernel
             ev = [e[:5] for e in k.events if e[0] in ("spawn", "exit", "reap", "deadlock")]
+            if res.status == "deadlock" and "just before the call" in str(res.exc):
+                g.require(False, "sigchld:signal-just-before-blocking-read",
+                          "cond run blocks forever in SigchldHelper.wait(): the last child's SIGCHLD arrived after the interpreter's "
+                          "last signal check and before read() was entered, so read() is not interrupted and the Python-level handler "
+                          "never runs; events %s; %s" % (ev, D))
             g.require(res.status != "deadlock", "sigchld:lost-exit-deadlock",
                       "cond run blocks forever: a child's exit was reaped by someone else than the SIGCHLD handler "
                       "(reaps: %s); events %s; %s" % ([(e[2], e[4]) for e in k.events if e[0] == "reap"], ev, D))
